@@ -177,7 +177,9 @@ class Rational(Primitive):
                 result = impl(self._value, right._value)
             except ZeroDivisionError:
                 raise _any.InvalidOperandError("Cannot divide %s by zero" % self._value) from None
-            except OverflowError:  # E.g., a fractional power whose operands or result do not fit into a float.
+            except (OverflowError, MemoryError):
+                # E.g., a fractional power whose operands or result do not fit into a float,
+                # or an integer power whose exact result does not fit into the memory.
                 raise _any.InvalidOperandError("The result of the operation is too large to be represented") from None
             else:
                 if isinstance(result, complex):  # E.g., a fractional power of a negative number.
